@@ -37,6 +37,8 @@ def half_to_double_bits(h):
 
 
 def gen(tier, rng, harness=None):
+    # ppc_fp128: an INFINITE high double with a NaN (or any) low double is an infinity — LLVM classifies the pair by its high double
+    ppc_inf = ["!flt.rt ppc_fp128 %s%s" % (h, l) for h in ("7FF0000000000000", "FFF0000000000000") for l in ("7FF8000000000000", "FFF8000000000001", "0000000000000001", "3FF0000000000000")]
     lines = []
     n = 150 if tier == "quick" else 5000
     # prefixed hexadecimal literals with FEWER digits than the full width, every length, two digit patterns: read as LLVM's lexer splits them
@@ -215,7 +217,7 @@ def gen(tier, rng, harness=None):
         if kind == "half" and (abs(k) >= 1 << 10 or j > 4):
             kind = "double"
         lines.append("!flt.dec %s %s" % (kind, txt))
-    return lines
+    return ppc_inf + lines
 
 
 def extra(res, findings, tier, rng, harness, driver):
